@@ -24,8 +24,9 @@ RULE = (
     'reference read/write is inside the span. Non-trivial: a name occurs with >= 2 different offsets, or changes '
     'class between statements, or the program is in the reject class. Distinct = distinct case JSON.'
 )
-ASSUMPTIONS = ['explicit lags=/leads= and min_lags=/min_leads= are not combined for the same side (the statement '
-               'does not say which wins)',
+ASSUMPTIONS = ['explicit lags=/leads= combined with min_lags=/min_leads= on the same side: the explicit value is the result '
+               '(the statement says explicit values REPLACE and the docstring says they are IMPOSED; min_* only raises the '
+               'script-derived value)',
                'two textually identical statements are one definition; duplicates that differ only in layout are not generated']
 TECHNIQUE = 'Hypothesis grammar-based generation + bounded enumeration; reference classification model as oracle'
 LEVEL_TEXT = ('Generated scripts (accepted and must-reject classes) are parsed and built; every class list, NAMES, LAGS/LEADS '
@@ -191,11 +192,13 @@ def accept_cases(named):
             st.fixed_dictionaries({}),
             st.fixed_dictionaries({'lags': opt}),
             st.fixed_dictionaries({'min_lags': st.integers(0, 3)}),
+            st.fixed_dictionaries({'lags': opt, 'min_lags': st.integers(0, 3)}),
         )
         side2 = st.one_of(
             st.fixed_dictionaries({}),
             st.fixed_dictionaries({'leads': opt}),
             st.fixed_dictionaries({'min_leads': st.integers(0, 3)}),
+            st.fixed_dictionaries({'leads': opt, 'min_leads': st.integers(0, 3)}),
         )
         return st.fixed_dictionaries({
             'prog': G.programs(max_statements=4, max_leaves=5, named_periods=named, verbatim=False,
@@ -210,7 +213,9 @@ def accept_cases(named):
 def gen_enumerated(max_nodes):
     def gen():
         combos = [{}, {'lags': 0}, {'lags': 3}, {'leads': 0}, {'leads': 2}, {'min_lags': 1}, {'min_lags': 3},
-                  {'min_leads': 1}, {'min_leads': 3}, {'lags': 1, 'min_leads': 2}, {'min_lags': 2, 'leads': 1}]
+                  {'min_leads': 1}, {'min_leads': 3}, {'lags': 1, 'min_leads': 2}, {'min_lags': 2, 'leads': 1},
+                  {'lags': 1, 'min_lags': 3}, {'leads': 0, 'min_leads': 2}, {'lags': 3, 'min_lags': 1},
+                  {'lags': 0, 'min_lags': 1, 'leads': 2, 'min_leads': 3}]
         for i, prog in enumerate(G.enumerate_programs(max_nodes)):
             yield {'prog': prog, 'tape': [], 'opts': combos[i % len(combos)], 'extra': i % 3}
     return gen
